@@ -8,7 +8,7 @@ import os, itertools
 import numpy as np
 from hypothesis import strategies as st
 from hypothesis.stateful import RuleBasedStateMachine, rule, initialize, precondition
-from vf.runner import (hyp_stateful, run_cases, fail, exc_failure, Violation, _in_code_under_test)
+from vf.runner import (hyp_stateful, hyp_run, run_cases, fail, exc_failure, Violation, _in_code_under_test)
 
 THOROUGH_SCALE = 3      # multiplies every generated-case budget of the thorough tier
 RULE = ("histories of 1..30 operations drawn by a Hypothesis state machine from: addcolumn (new/existing), "
@@ -432,6 +432,101 @@ def replay_history(hist, tmpdir):
     return [], h
 
 
+# ---------------------------------------------------------------------- typed columns, realistic magnitudes
+
+TYPES = ["float64", "float64", "float32", "int64", "int32", "uint8", "uint16", "uint32", "uint64", "bool"]
+
+
+@st.composite
+def typedcases(draw):
+    """columns as files and detector code deliver them: peak ids and counts as (unsigned) integers, flags as booleans,
+    positions of a few 10^4 .. 10^6 as floats; one row operation on the table"""
+    n = draw(st.integers(1, 12))
+    ncol = draw(st.integers(1, 3))
+    cols = []
+    for _ in range(ncol):
+        tp = draw(st.sampled_from(TYPES))
+        if tp == "bool":
+            v = draw(st.lists(st.integers(0, 1), min_size=n, max_size=n))
+            base = 0
+        else:
+            hi = 200 if tp == "uint8" else 40
+            q = 1 if tp[0] in "iu" else 4
+            base = draw(st.sampled_from([0, 0, 40000, 1000000])) if tp not in ("uint8",) else 0
+            if tp == "uint16":
+                base = min(base, 40000)
+            lo = 0 if (tp[0] == "u" or base) else -hi
+            v = [base + k / float(q) for k in draw(st.lists(st.integers(lo * q, hi * q), min_size=n, max_size=n))]
+        cols.append([tp, v])
+    op = draw(st.sampled_from(["sortby", "sortby", "removerows_int", "removerows_tol"]))
+    target = draw(st.integers(0, ncol - 1))
+    tol = draw(st.sampled_from([0.25, 0.5, 0.75, 1.0]))
+    # values to remove: near members of the target column
+    picks = draw(st.lists(st.tuples(st.integers(0, n - 1), st.integers(-4, 4)), min_size=1, max_size=3))
+    return dict(n=n, cols=cols, op=op, target=target, tol=tol, picks=picks)
+
+
+def check_typed(case, rec=None):
+    from ImageD11 import columnfile
+    names = NAMES[:len(case["cols"])]
+    arrays = {nm: np.array(v, float).astype(tp) for nm, (tp, v) in zip(names, case["cols"])}
+    model = [[float(x) for x in arrays[nm]] for nm in names]
+    ok_, cf = True, None
+    try:
+        cf = columnfile.colfile_from_dict({nm: a.copy() for nm, a in arrays.items()})
+    except Exception as e:
+        if _in_code_under_test(e):
+            return [exc_failure("colfile_from_dict", e)]
+        raise
+    tname = names[case["target"]]
+    tcol = model[case["target"]]
+    fails = []
+    op = case["op"]
+    try:
+        if op == "sortby":
+            cf.sortby(tname)
+            keep = None
+        else:
+            vals = [tcol[i] + d * 0.25 for i, d in case["picks"]]
+            if op == "removerows_int":
+                vals = [int(v) for v in vals]
+                cf.removerows(tname, vals)
+                keep = [int(x) not in vals for x in tcol]
+            else:
+                cf.removerows(tname, vals, tol=case["tol"])
+                keep = [not any(abs(x - v) < case["tol"] for v in vals) for x in tcol]
+    except Exception as e:
+        if _in_code_under_test(e):
+            return [exc_failure(op, e)]
+        raise
+    got = [[float(x) for x in cf.getcolumn(nm)] for nm in names]
+    if any(len(g) != cf.nrows for g in got):
+        fails.append(fail("typed", "%s: nrows %d, column lengths %s" % (op, cf.nrows, [len(g) for g in got]), op=op))
+    elif op == "sortby":
+        col = got[case["target"]]
+        if any(b < a for a, b in zip(col[:-1], col[1:])):
+            fails.append(fail("typed", "sortby on a %s column: not ascending afterwards %s" %
+                              (case["cols"][case["target"]][0], col[:6]), op=op))
+        elif sorted(zip(*got)) != sorted(zip(*model)):
+            fails.append(fail("typed", "sortby on a %s column did not apply one permutation to every column" %
+                              case["cols"][case["target"]][0], op=op))
+    else:
+        exp = [[x for x, k in zip(m, keep) if k] for m in model]
+        if got != exp:
+            fails.append(fail("typed", "%s(%s column, values %s%s): rows kept %s, expected %s" % (
+                op, case["cols"][case["target"]][0], vals, "" if op == "removerows_int" else ", tol %g" % case["tol"],
+                got[case["target"]][:6], exp[case["target"]][:6]), op=op))
+    for nm, a in arrays.items():
+        if not fails and cf.getcolumn(nm).dtype != a.dtype:
+            fails.append(fail("typed", "%s changed the type of column %s from %s to %s" %
+                              (op, nm, a.dtype, cf.getcolumn(nm).dtype), op=op))
+    if rec is not None:
+        moved = (op == "sortby" and got[case["target"]] != tcol) or (keep is not None and not all(keep) and any(keep))
+        rec.case(case, bool(moved), ["typed:" + op, "typed:" + case["cols"][case["target"]][0]] +
+                 (["typed:large_values"] if max(abs(x) for x in tcol) >= 40000 else []))
+    return fails
+
+
 # ---------------------------------------------------------------------- hypothesis machine
 
 VALS = st.integers(-10, 10).map(lambda k: k / 2.0)
@@ -702,11 +797,14 @@ def run_shard(rec):
         if nv >= 3:
             break
     rec.note("exhaustive_depth", depth, "max")
+    hyp_run(rec, "typed", typedcases(), lambda c: check_typed(c, rec), max_examples=400 if quick else 4000)
     hyp_stateful(rec, "history", make_machine(tmpdir), HOLDER, max_examples=400 if quick else 2500,
                  steps=30 if quick else 50)
 
 
 def replay(sub, case, rec):
     REC[0] = rec
+    if sub == "typed":
+        return check_typed(case, rec)
     f, _ = replay_history(case, os.environ.get("VERIF_TMP", "."))
     return f
